@@ -138,13 +138,28 @@ Proof.
   intros H. unfold mel_dur. rewrite (qsum_pointwise _ _ (mel_augment_exact m k H)). apply qsum_map_mul.
 Qed.
 
+Lemma fits_mul_zero x : fits (x * 0) = true.
+Proof.
+  unfold fits. assert (E : x * 0 == 0) by ring. rewrite (Qred_complete _ _ E). reflexivity.
+Qed.
+
+Lemma mel_set_duration_zero m : exists m', mel_set_duration m 0 = Some m' /\ mel_dur m' == 0.
+Proof.
+  unfold mel_set_duration. cbn [Qeq_bool]. eexists. split; [reflexivity|].
+  rewrite (mel_augment_total m 0); [ring|].
+  induction m as [|x m IH]; cbn [forallb]; [reflexivity|]. rewrite fits_mul_zero, IH. reflexivity.
+Qed.
+
 Lemma mel_set_duration_total m d : ~ mel_dur m == 0 ->
   forallb (fun x => fits (x * (d / mel_dur m))) m = true ->
   exists m', mel_set_duration m d = Some m' /\ mel_dur m' == d.
 Proof.
   intros Hnz H. unfold mel_set_duration.
-  destruct (Qeq_bool (mel_dur m) 0) eqn:E; [apply Qeq_bool_iff in E; contradiction|].
-  eexists. split; [reflexivity|]. rewrite (mel_augment_total m _ H). field. exact Hnz.
+  destruct (Qeq_bool d 0) eqn:Ed.
+  - apply Qeq_bool_iff in Ed. destruct (mel_set_duration_zero m) as (m' & Hm & Hd).
+    unfold mel_set_duration in Hm. cbn [Qeq_bool] in Hm. exists m'. split; [exact Hm|]. rewrite Hd, Ed. reflexivity.
+  - destruct (Qeq_bool (mel_dur m) 0) eqn:E; [apply Qeq_bool_iff in E; contradiction|].
+    eexists. split; [reflexivity|]. rewrite (mel_augment_total m _ H). field. exact Hnz.
 Qed.
 
 (* ---------- decompose_duration keeps the total ---------- *)
